@@ -94,8 +94,13 @@ def c17_case(beh, sandbox, baseline_cache, lock):
     settings_file(sfile)
     out = os.path.join(sandbox, "out")
     dot = desc["spelling"] == "dot" and len(inputs) == 1 and inputs[0]["kind"] == "dir"
+    dotdot = desc["spelling"] == "dotdot" and len(inputs) == 1 and inputs[0]["kind"] == "dir"
     if dot:
         cwd = os.path.join(loc, inputs[0]["name"])
+    elif dotdot:
+        # the input directory spelled ".." from its first sub-directory
+        top = os.path.join(loc, inputs[0]["name"])
+        cwd = os.path.join(top, sorted(d for d in os.listdir(top) if os.path.isdir(os.path.join(top, d)))[0])
     elif desc["cwd"] == "parent":
         cwd = loc
     elif desc["cwd"] == "elsewhere":
@@ -108,6 +113,10 @@ def c17_case(beh, sandbox, baseline_cache, lock):
         p = os.path.join(loc, inp["name"])
         if dot:
             s = "."
+        elif dotdot:
+            s = ".."
+        elif desc["spelling"] == "dotdot":
+            s = os.path.join(os.path.relpath(loc, cwd), "treeA", "..", inp["name"])
         elif desc["spelling"] == "abs":
             s = p
         elif desc["spelling"] == "trailing" and inp["kind"] == "dir":
@@ -219,7 +228,7 @@ def c19_case(case, sandbox):
     with open(script, "w") as fh:
         fh.write('set(CMINX_EXECUTABLE "%s")\ninclude("%s")\ncminx_gen_rst("%s" "%s" %s)\nfile(WRITE "%s" "continued")\n'
                  % (shim, os.path.join(lib.REPO, "cmake", "cminx.cmake"), conc(case["input"]["path"], out_cmake), out_cmake,
-                    " ".join('"%s"' % x for x in extra), os.path.join(sandbox, "after.txt")))
+                    " ".join(cmake_quote(x) for x in extra), os.path.join(sandbox, "after.txt")))
     p = subprocess.run(["cmake", "-P", script], cwd=sandbox, stdout=subprocess.PIPE, stderr=subprocess.PIPE, timeout=300)
     cm_rc = p.returncode
     continued = os.path.exists(os.path.join(sandbox, "after.txt"))
@@ -243,6 +252,92 @@ def c19_case(case, sandbox):
     if t1 != t2:
         return sorted(t2), sorted(t1), "output tree of cminx_gen_rst differs from the direct command line run"
     return None
+
+
+def cmake_quote(x):
+    """a CMake quoted argument that evaluates to exactly x"""
+    return '"' + x.replace("\\", "\\\\").replace('"', '\\"').replace("$", "\\$") + '"'
+
+
+def genrst_case(beh, sandbox):
+    """GenRst.tla: a history of edits, page deletions and calls of cminx_gen_rst on one build tree; after the last
+    call the output tree must be what the command line produces for the inputs as they are now"""
+    inp_root = os.path.join(sandbox, "IN")
+    materialise(inp_root)
+    home = os.path.join(sandbox, "home")
+    os.makedirs(os.path.join(home, ".config", "cminx"))
+    sfile = os.path.join(sandbox, "extra.yaml")
+    seps = ["::", "--", "__"]
+
+    def write_settings(v):
+        with open(sfile, "w") as fh:
+            fh.write("rst:\n  module_path_separator: '%s'\nlogging:\n  version: 1\n" % seps[v % 3])
+    nset = 0
+    write_settings(nset)
+    out_cmake = os.path.join(sandbox, "out_cmake")
+    out_cli = os.path.join(sandbox, "out_cli")
+    log = os.path.join(sandbox, "shim")
+    shim = os.path.join(sandbox, "cminx-shim.sh")
+    with open(shim, "w") as fh:
+        fh.write(SHIM.format(log=log, src=lib.CMINX_SRC, home=home, py=PY, driver=DRIVER))
+    os.chmod(shim, 0o755)
+    tree = os.path.join(inp_root, "treeA")
+    script = os.path.join(sandbox, "gen.cmake")
+    with open(script, "w") as fh:
+        fh.write('set(CMINX_EXECUTABLE "%s")\ninclude("%s")\ncminx_gen_rst("%s" "%s" "-s" "%s")\n'
+                 % (shim, os.path.join(lib.REPO, "cmake", "cminx.cmake"), tree, out_cmake, sfile))
+    for k, act in enumerate(beh["hist"]):
+        if act == "edit-lower":
+            with open(os.path.join(tree, "x.cmake"), "a") as fh:
+                fh.write("#[[[\n# added %d\n#]]\nfunction(added_%d)\nendfunction()\n" % (k, k))
+        elif act == "edit-upper":
+            with open(os.path.join(tree, "sub", "Z.CMAKE"), "a") as fh:
+                fh.write("#[[[\n# added %d\n#]]\nfunction(added_up_%d)\nendfunction()\n" % (k, k))
+        elif act == "edit-settings":
+            nset += 1
+            write_settings(nset)
+        elif act == "delete-page":
+            pg = os.path.join(out_cmake, "x.rst")
+            if os.path.exists(pg):
+                os.unlink(pg)
+        elif act == "call":
+            p = subprocess.run(["cmake", "-P", script], cwd=sandbox, stdout=subprocess.PIPE, stderr=subprocess.PIPE, timeout=300)
+            if p.returncode != 0:
+                return "cmake -P succeeds", p.stderr.decode()[-300:], "cminx_gen_rst failed on valid input"
+    rc, so, se = run_process([tree, "-r", "-s", sfile, "-o", out_cli], sandbox, home)
+    if rc != 0:
+        raise lib.MachineryError("reference command line run failed: " + se[-300:])
+    t1 = read_tree(out_cmake) if os.path.isdir(out_cmake) else {}
+    t2 = read_tree(out_cli)
+    if t1 != t2:
+        diff = sorted(k for k in set(t1) | set(t2) if t1.get(k) != t2.get(k))
+        return {"files": sorted(t2)}, {"files": sorted(t1), "differing": diff[:8]}, \
+            "after the last call the output tree is not what the command line produces for the current sources and settings"
+    return None
+
+
+def replay_genrst(run, behs):
+    base = tempfile.mkdtemp(prefix="verif_genrst_", dir="/dev/shm" if os.path.isdir("/dev/shm") else None)
+
+    def one(item):
+        n, beh = item
+        sb = tempfile.mkdtemp(prefix="g_", dir=base)
+        try:
+            return n, genrst_case(beh, sb)
+        finally:
+            subprocess.run(["rm", "-rf", sb])
+    try:
+        with ThreadPoolExecutor(max_workers=lib.NCPU) as ex:
+            for n, r in ex.map(one, list(enumerate(behs))):
+                run.behaviours += 1
+                run.count("genrst:" + "|".join(behs[n]["hist"]))
+                if r is not None:
+                    exp, got, why = r
+                    run.violation({"history": behs[n]["hist"], "features": {"calls": behs[n]["hist"].count("call")}}, exp, got, why)
+        if behs:
+            run.sample({"history_of_calls_and_edits": behs[len(behs) // 2]["hist"]})
+    finally:
+        subprocess.run(["rm", "-rf", base])
 
 
 def replay_c19(run, cases):
